@@ -42,15 +42,15 @@ def parse_contracts(path):
     if not os.path.exists(path): return fns
     cur = None; sec = None
     for ln in open(path).read().split("\n"):
-        m = re.match(r"\s*//@@\s*(\w+)\s*(.*)$", ln)
+        m = re.match(r"\s*//@@\s*(\w+\??)\s*(.*)$", ln)
         if m:
             d, rest = m.group(1), m.group(2).strip()
             if d == "fn":
                 cur = fns.setdefault(rest, []); sec = None
             elif d in ("sig", "attr", "bodystart"):
                 sec = {"kind": d, "text": []}; cur.append(sec)
-            elif d == "loop":
-                sec = {"kind": "loop", "n": int(rest), "text": []}; cur.append(sec)
+            elif d in ("loop", "loop?"):
+                sec = {"kind": "loop", "n": int(rest), "text": [], "optional": d.endswith("?")}; cur.append(sec)
             elif d == "nested":
                 sec = {"kind": "nested", "name": rest, "text": []}; cur.append(sec)
             elif d == "nestedbody":
@@ -196,6 +196,12 @@ def extract(repo, spec, contracts, mode, mutate=None):
             a, b = RW.locate_block(toks, it, spec["block"])
         except ScanError as e:
             raise UnitError(f"lost anchor: block {spec['block']!r} in {spec['item']}: {e}")
+    if spec.get("from"):
+        # the tail of the function body: from the first occurrence of the anchor statement to the end of the body
+        seq = [t.text for t in tokenize(spec["from"])[0]]
+        i = _find_seq(toks, it.body_open + 1, it.b, seq, 1)
+        if i is None: raise UnitError(f"lost anchor: tail anchor `{spec['from']}` in {spec['item']}")
+        a, b = i, it.b - 1
     body = [t.copy() for t in toks[a:b+1]]
     ex.line_lo = body[0].line; ex.line_hi = body[-1].line
     ex.orig_hash = hashlib.sha256("\x00".join(t.text for t in body).encode()).hexdigest()[:16]
@@ -226,8 +232,8 @@ def extract(repo, spec, contracts, mode, mutate=None):
     # ghost insertion
     secs = contracts.get(ex.id, [])
     ins = []   # (index, order, text)
-    bo = _fn_body_open(body) if not spec.get("block") else 0
-    ex.is_fn = bo is not None and not spec.get("block") and any(t.text == "fn" for t in body[:bo])
+    bo = _fn_body_open(body) if not (spec.get("block") or spec.get("from")) else (0 if spec.get("block") else -1)
+    ex.is_fn = bo is not None and not (spec.get("block") or spec.get("from")) and any(t.text == "fn" for t in body[:bo])
     if bo is None and any(r == "execconst" for r, _ in ex.rewrites):
         bo = next(i for i, t in enumerate(body) if t.text == "{" and i > 0)
         for i, t in enumerate(body):
@@ -263,6 +269,7 @@ def extract(repo, spec, contracts, mode, mutate=None):
         elif s["kind"] == "loop":
             ls = _loops(body, bo + 1, len(body))
             if s["n"] > len(ls):
+                if s.get("optional"): continue      # the loop this contract belongs to does not exist (any more)
                 if TOLERANT["on"]: ex.lost.append(f"loop #{s['n']}"); continue
                 raise UnitError(f"lost anchor: {ex.id} has no loop #{s['n']}")
             ins.append((ls[s["n"] - 1], order, text))
@@ -360,6 +367,8 @@ def build(unit_dir, repo, mode="verify", mutate=None):
             if mm: sp["item"] = mm.group(1)
             mm = re.search(r'block="([^"]+)"', rest)
             if mm: sp["block"] = mm.group(1)
+            mm = re.search(r'from="([^"]+)"', rest)
+            if mm: sp["from"] = mm.group(1)
             specs = [sp]
         else:
             raise UnitError(f"unknown template directive {d}")
